@@ -444,6 +444,16 @@ class Interp:
         raise Unsupported("binary %s" % op)
 
     def call(self, n, env):
+        mac = n.get("mac")
+        if mac is not None and self.C.S(mac).split(">")[0] == "vec":
+            # `vec![a, b]` (std's expansion boxes an array literal): value = the array's elements
+            from .tast import walk
+            for x in walk(n):
+                if x.get("k") == "array":
+                    return VecV([self.ev(e, env) for e in x["elems"]])
+                if x.get("k") == "repeat":
+                    raise Unsupported("vec![x; n]")
+            return VecV([])
         name = n.get("name")
         callee = n.get("resolved") or n.get("callee") or ""
         args = []
